@@ -29,6 +29,9 @@ SIGS = [
     ([['a', 'PosOrKw', None], ['b', 'PosOrKw', I(5)]], [I(1)], []),
     ([['a', 'PosOnly', None], ['args', 'VarPos', None], ['k', 'KwOnly', I(2)], ['kw', 'VarKw', None]], [I(1), I(2)], [['z', I(3)]]),
     ([['a', 'PosOrKw', None], ['args', 'VarPos', None], ['kw', 'VarKw', None]], [I(1)], []),
+    # as many arguments as parameters, yet a default is left to fill in (variadic signatures)
+    ([['a', 'PosOrKw', None], ['b', 'PosOrKw', I(2)], ['kw', 'VarKw', None]], [I(1)], [['x', I(10)], ['y', I(20)]]),
+    ([['rest', 'VarPos', None], ['flag', 'KwOnly', I(7)]], [I(1), I(2)], []),
 ]
 DEFAULT = {'pre': 'PreContractError', 'post': 'PostContractError', 'ensure': 'PostContractError', 'raises': 'RaisesContractError',
            'reason': 'ReasonContractError', 'has': 'SilentContractError'}
@@ -115,7 +118,9 @@ def monitor(sc, obs):
         mm = re.search(r'params=(\{.*?\}) origin=', act.outcome)
         gotp = mm.group(1) if mm else None
         if gotp != pyeval.show_dict(b):
-            tag = 'params_extra_kwargs_copy' if any(p[1] == 'VarKw' for p in fsig) and kws else None
+            # C10-F2 is exactly: params = the call's kwargs (top level) overlaid with the binding; anything else is a different defect
+            b2 = {n: pyeval.val(v) for n, v in kws}; b2.update(b)
+            tag = 'params_extra_kwargs_copy' if (any(p[1] == 'VarKw' for p in fsig) and kws and gotp == pyeval.show_dict(b2)) else None
             out.append((f'params should be the arguments of the failing call {pyeval.show_dict(b)}; got {gotp}', tag))
         if 'origin=f' not in act.outcome:
             out.append((f'the violated function should be exposed as origin; {act.outcome!r}', None))
